@@ -65,7 +65,7 @@ var propInfo = map[string]struct {
 func init() {
 	fw.Register(&fw.Prop{
 		ID:   "C03",
-		Rule: ruleText,
+		Rule: fmt.Sprintf(ruleText, len(templates), len(reduced)),
 		N:    genN,
 		Gen: func(r *rand.Rand, i int, tier string) any {
 			return genCase(r, i, tier)
@@ -81,16 +81,17 @@ func init() {
 		Assumptions: []string{
 			"the reference cascade (props/c03/ref.go) and selector model (props/c03/model.go) are correct transcriptions of CSS Cascade 4 §6, Selectors 4 §17, CSS Nesting 1 and CSS 2.1 §6.4.4",
 			"golang.org/x/net/html builds the DOM the model describes (verified per case: tag, id, class and child structure are compared before any verdict)",
-			"only declaration kinds whose relative order CSS fixes are generated: no @layer, no !important in UA sheets, no revert, no declarations after nested rules, media types only (webrender has no media-feature support), one presentational-hint source per (element, property)",
+			"only declaration kinds whose relative order CSS fixes are generated: no @layer, no !important in UA sheets, no revert, media types only (webrender has no media-feature support), one presentational-hint source per (element, property)",
 			"user and UA sheets are built with tree.NewCSSDefault, whose media type is always print; @media inside them is generated only for the print device",
+			"a sheet included several times (two @import rules of one sheet, of different sheets, <link> twice, <link> and @import) contributes its rules at every inclusion (Cascade 4 §2), whatever the spelling of the URL; an @import naming a sheet that is on its own import path (cycle) loads nothing — CSS leaves cycles to the implementation, this is what browsers do; cycles are generated only where they do not pass through a <link>ed file (there webrender follows the cycle one level deeper than browsers do, which CSS does not decide)",
 		},
 		Exhaustive: func(tier string) bool { return true },
 		Batch:      400,
 	})
 }
 
-const ruleText = "cases: (1) exhaustive ordered pairs of 156 declaration templates (origin x importance x selector shape x carrier: UA sheet / user sheet / <style> / <link> / @import and 2-level @import chain / matching and non-matching @media, media attribute and @import media / late or @media-nested @import / rule with an invalid selector / nested rule with '&', '&.c' and relative selector / style attribute / width,height attribute / hints sheet) competing for one property of one element, in two arrangements (one sheet per template; one sheet per origin), plus every (plain rule, nested-carrier) pair with the second nested inside the first; (2) seeded tuples of 3-4 templates (thorough: also all ordered triples of a reduced set of 21 templates); (3) random documents of 3-11 elements (optional table subtree) with random selectors over a small alphabet (compound/complex/lists, :is, :not, :nth-child, attribute operators, '&'), 8 observed properties plus the margin shorthand, invalid values, spelling variants of !important/@media/@import, pseudo-element rules, repeated imports, presentational attributes on img/table/tr/td/body, replaced UA, forms-UA and hints sheets, print and screen devices, hints and forms on/off; 1 case in 12-16 also runs layout.Layout and checks the style of every box generated for an element. " +
-	"Every (element or ::before/::after, property) of every document is compared with the reference cascade. A case is non-trivial when, for at least one of them, two or more valid declarations applied and a winner had to be decided; distinct = distinct case input. Documents in which a known defect of the unchanged tree (findings/C03) would change a computed value are decided on the model and skipped (pairs, counted as excluded_*) or regenerated (random documents, counted)."
+const ruleText = "cases: (1) exhaustive ordered pairs of %d declaration templates (origin x importance x selector shape x carrier: UA sheet / user sheet / <style> / <link> / @import and 2-level @import chain / matching and non-matching @media, media attribute and @import media / late or @media-nested @import / rule with an invalid selector / nested rule with '&', '&.c' and relative selector / style attribute / width,height attribute / hints sheet / import graph: the same sheet imported twice by one sheet with the other templates' imports in between (same or other URL spelling, first or second import with non-matching media), imported through two intermediate sheets (diamond), linked twice, linked then imported, importing itself, 2-sheet import cycle) competing for one property of one element, in two arrangements (one sheet per template; one sheet per origin), plus every (plain rule, nested-carrier) pair with the second nested inside the first, plus every ordered pair of the @import-carried templates with the shared sheet one level down (a file imported by a <style>; a <link>ed file), so that repeated imports, diamonds and cycles also occur inside imported and linked sheets; (2) seeded tuples of 3-4 templates (thorough: also all ordered triples of a reduced set of %d templates); (3) random documents of 3-11 elements (optional table subtree) with random selectors over a small alphabet (compound/complex/lists, :is, :not, :nth-child, attribute operators, '&'), 8 observed properties plus the margin shorthand, invalid values, spelling variants of !important/@media/@import, pseudo-element rules, repeated imports (a file imported again by another sheet; by the same sheet, two times in three with a rival sheet of equal weight imported in between; self-imports and 2-cycles; files linked twice; three URL spellings), presentational attributes on img/table/tr/td/body, replaced UA, forms-UA and hints sheets, print and screen devices, hints and forms on/off; 1 case in 12-16 also runs layout.Layout and checks the style of every box generated for an element. " +
+	"Every (element or ::before/::after, property) of every document is compared with the reference cascade. A case is non-trivial when, for at least one of them, two or more different valid declarations applied and a winner had to be decided (the copies contributed by a sheet included twice count once); winner_needs_sibling_reimport / winner_needs_repeated_inclusion count the contests whose expected winner changes if the second @import of a file by one sheet / any repeated inclusion of a file in the document contributed nothing; distinct = distinct case input. Documents in which a known defect of the unchanged tree (findings/C03) would change a computed value are decided on the model and skipped (pairs, counted as excluded_*) or regenerated (random documents, counted)."
 
 // ---------------------------------------------------------------------------------------------
 
@@ -358,7 +359,9 @@ func check(raw json.RawMessage) fw.Result {
 				if len(x.cands) >= 1 {
 					res.Count("pairs_with_declaration", 1)
 				}
-				if len(x.cands) >= 2 {
+				// a contest opposes two different declarations (the copies that a sheet included
+				// twice contributes are one declaration: their order cannot be observed)
+				if distinctDecls(x.cands) >= 2 {
 					res.Count("contests", 1)
 					res.Count("decided_by_"+x.step, 1)
 					res.Nontrivial = true
@@ -479,6 +482,23 @@ func hasTrail(doc *Doc) bool {
 		}
 	}
 	return false
+}
+
+func distinctDecls(cs []cand) int {
+	n := 0
+	for i, c := range cs {
+		first := true
+		for _, o := range cs[:i] {
+			if o.d.Val == c.d.Val {
+				first = false
+				break
+			}
+		}
+		if first {
+			n++
+		}
+	}
+	return n
 }
 
 // needsRepeat reports whether the expected value changes when the candidates selected by drop
@@ -652,10 +672,18 @@ func counterFloors(tier string) map[string]int64 {
 		"winner_style_attribute":        2000,
 		"device_screen":                 800,
 		"forms_on":                      350,
-		"kind_pair":                     55000,
+		"kind_pair":                     80000,
 		"carrier_trailing_declarations": 2000,
 		"carrier_invalid_selector":      4000,
 		"kind_triple":                   3000,
 		"kind_random":                   8000,
+		// import graph (sheets included more than once, cycles)
+		"import_sibling_repeat_cases":                     4000,
+		"import_sibling_repeat_with_import_between_cases": 800,
+		"import_document_repeat_cases":                    8500,
+		"import_respelled_repeat_cases":                   6500,
+		"import_cycle_cut_cases":                          3400,
+		"winner_needs_sibling_reimport":                   550,
+		"winner_needs_repeated_inclusion":                 900,
 	}
 }
